@@ -3,6 +3,7 @@ package main
 import (
 	"fmt"
 	"go/types"
+	"os"
 	"sort"
 	"strings"
 
@@ -210,6 +211,14 @@ func shortFuncName(f *ssa.Function) string {
 func (fr *Frame) opaqueCall(st *State, sig *types.Signature, ws map[string]bool, what string, in ssa.Instruction) []*Term {
 	fc := fr.fc
 	fc.opaque[what] = true
+	if fc.initMode && os.Getenv("GOVC_DEBUG") != "" {
+		var ks []string
+		for k := range ws {
+			ks = append(ks, k)
+		}
+		sort.Strings(ks)
+		fmt.Fprintf(os.Stderr, "init %s: opaque %s havocs %v\n", fc.fn, what, ks)
+	}
 	fr.havocClasses(st, ws, "call")
 	var res []*Term
 	rs := sig.Results()
@@ -355,8 +364,13 @@ func (fr *Frame) havocAssigns(st *State, ct *Contract, env *Env) {
 
 func (fr *Frame) havocLoc(st *State, env *Env, e Expr, elems bool, item string) {
 	fc := fr.fc
+	// locations are designated in the pre-call state (an assigned field may itself be havocked)
 	saved := env.st
-	env.st = st
+	if env.old != nil {
+		env.st = env.old
+	} else {
+		env.st = st
+	}
 	defer func() { env.st = saved }()
 	switch x := e.(type) {
 	case *ESel:
@@ -377,7 +391,7 @@ func (fr *Frame) havocLoc(st *State, env *Env, e Expr, elems bool, item string) 
 			if !ok {
 				efail("assigns %s: not a slice field", item)
 			}
-			v := fc.load(st, a)
+			v := fc.load(env.st, a)
 			fr.havocRow(st, sl.Elem(), SlArr(v))
 			return
 		}
